@@ -113,6 +113,9 @@ type c20Spec struct {
 	YAML     string   // content of the --config file ("" = none)
 	NoBasics bool     // do not pass contact points / port by flag (bind is still passed)
 	Inproc   bool
+	// OldFirst: two contact points; the first is a node of an older release (v3 at most) that fails at the last step of the
+	// initial connect (it reports an rpc_address under which the proxy cannot find it), the second is healthy
+	OldFirst bool
 }
 
 type c20Case struct {
@@ -164,9 +167,20 @@ func c20FreeAddr() (string, error) {
 
 func c20Start(c *Ctx, id string, spec c20Spec) (*c20Proc, error) {
 	log := mon.NewLog(true)
-	cluster, err := fakecass.New(fakecass.Config{Hosts: 1, Log: log, Keyspaces: []string{"ks1"}})
+	fcfg := fakecass.Config{Hosts: 1, Log: log, Keyspaces: []string{"ks1"}}
+	if spec.OldFirst {
+		fcfg.Hosts, fcfg.ContactHosts = 2, []int{1, 2}
+		fcfg.HostAdvertised = map[int]string{1: "10.254.254.1"}
+		fcfg.HostMaxVersion = map[int]int32{1: 3}
+	}
+	cluster, err := fakecass.New(fcfg)
 	if err != nil {
 		return nil, err
+	}
+	if spec.OldFirst {
+		// the old node is a stale entry of the contact-point list: no other node lists it as a peer (a session that met it
+		// among the hosts would refuse to start - "required protocol version is not supported" - whatever the options say)
+		cluster.SetListed(1, false)
 	}
 	p := &c20Proc{id: id, cluster: cluster, log: log, done: make(chan struct{})}
 	p.bind, err = c20FreeAddr()
@@ -179,7 +193,7 @@ func c20Start(c *Ctx, id string, spec c20Spec) (*c20Proc, error) {
 	p.logPath = filepath.Join(dir, id+".log")
 	args := []string{"--bind", p.bind}
 	if !spec.NoBasics {
-		args = append(args, "--contact-points", cluster.ContactPoint(), "--port", fmt.Sprint(cluster.Port))
+		args = append(args, "--contact-points", strings.Join(cluster.ContactPoints(), ","), "--port", fmt.Sprint(cluster.Port))
 	}
 	if spec.YAML != "" {
 		p.ymlPath = filepath.Join(dir, id+".yaml")
@@ -307,11 +321,14 @@ func (p *c20Proc) Await() string {
 }
 
 // backendStartupVersions returns the distinct version bytes of the STARTUP frames the backend received, in order.
-func (p *c20Proc) backendStartupVersions() []int {
+func (p *c20Proc) backendStartupVersions() []int { return p.backendStartupVersionsAt(0) }
+
+// backendStartupVersionsAt: the versions of the STARTUP frames host `host` received (0 = any host).
+func (p *c20Proc) backendStartupVersionsAt(host int) []int {
 	var out []int
 	seen := map[int]bool{}
 	for _, e := range p.log.Snapshot() {
-		if e.Src == "backend" && e.K == "recv" && primitive.OpCode(e.Op) == primitive.OpCodeStartup && !seen[e.Ver] {
+		if e.Src == "backend" && e.K == "recv" && (host == 0 || e.Host == host) && primitive.OpCode(e.Op) == primitive.OpCodeStartup && !seen[e.Ver] {
 			seen[e.Ver] = true
 			out = append(out, e.Ver)
 		}
@@ -531,8 +548,19 @@ func c20Spelling(r *mon.Result, cs *c20Case, p *c20Proc, option, spelling, obser
 }
 
 func c20CheckBackendVersion(option, spelling string, want c20Ver) func(c *Ctx, cs *c20Case, p *c20Proc) bool {
+	return c20CheckBackendVersionAt(0, option, spelling, want)
+}
+
+func c20CheckBackendVersionAt(host int, option, spelling string, want c20Ver) func(c *Ctx, cs *c20Case, p *c20Proc) bool {
 	return func(c *Ctx, cs *c20Case, p *c20Proc) bool {
-		vs := p.backendStartupVersions()
+		vs := p.backendStartupVersionsAt(host)
+		if host != 0 {
+			if len(p.backendStartupVersionsAt(1)) == 0 {
+				c.R.Inconc(cs.Key + ": the first contact point never saw a STARTUP frame")
+				return true
+			}
+			c.R.Obs("first_contact_point_tried_and_given_up", 1)
+		}
 		if len(vs) == 0 {
 			c.R.Inconc(cs.Key + ": no STARTUP frame seen at the backend although the proxy runs")
 			return true
@@ -580,6 +608,23 @@ func c20Cases(c *Ctx) []*c20Case {
 			return []bool{false}
 		}
 		return []bool{false, true}
+	}
+
+	// --- A2. the option names the version whatever the proxy met before it found a usable contact point: the first contact
+	// point is a node of an older release (v3) that the proxy negotiates down to and then gives up at the last step of the
+	// initial connect; the second contact point must be asked for the configured version
+	for _, v := range c20Versions {
+		if v.Code <= 3 {
+			continue
+		}
+		for _, src := range c20Sources {
+			v := v
+			s := c20Spec{Args: []string{"--max-protocol-version=DSEv2"}, OldFirst: true}
+			c20Put(&s, src, "protocol-version", v.Name)
+			add(&c20Case{Key: "behind-an-old-contact-point/protocol-version=" + v.Name, Source: src, Spec: s, Expect: "run",
+				Detail: "protocol-version=" + v.Name + " with max DSEv2, two contact points of which the first only speaks v3 and is given up",
+				Check: c20CheckBackendVersionAt(2, "protocol-version", v.Name, v)})
+		}
 	}
 
 	// --- A. every documented spelling of the two version options ---------------------------------------------------
